@@ -64,6 +64,14 @@ def gen_case(rng):
             "kind": {"ssa": "ssa", "ssa_safe": "ssa", "vssa": "vssa", "dssa": "dssa", "dvssa": "dvssa"}.get(mode), "safe": mode == "ssa_safe"}
     if any(rx.get("delay", {}).get("reactants") for rx in spec["reactions"]): case["safe"] = True
     if mode in ("vssa", "dvssa"): case["volume"] = {"type": "base", "V0": rng.choice([0.5, 1.0, 2.0])}
+    # a lineage cell may be ENDED by a division or death rule before the grid ends: the row it leaves last is a reported row like any other
+    # (seeded change S7_C09: the repeat rules were applied after the division / death checks, so the last row never saw them)
+    if mode == "lineage" and rng.random() < 0.6:
+        kind = rng.choice(["time", "deltaV", "death"])
+        if kind == "time": case["end_rule"] = ["time", times[rng.randint(1, n - 1)]]
+        elif kind == "deltaV": case["end_rule"] = ["deltaV", 0.1 * times[rng.randint(1, n - 1)]]
+        else:
+            s_ = rng.choice(sp); case["end_rule"] = ["death", s_, spec["x0"][s_] + rng.randint(0, 2)]
     return case
 
 def gen_cases(seed, tier):
@@ -92,7 +100,13 @@ def impl_case(case):
     M = LineageModel(species=list(spec["species"]), reactions=[G.reaction_tuple(r) for r in spec["reactions"]], parameters=list(spec["parameters"].items()),
                      rules=rl[:len(rl) - late], initial_condition_dict=dict(spec["x0"]))
     for r_ in rl[len(rl) - late:]: M.create_rule(*r_)
-    M.create_volume_rule("linear", {"growth_rate": 0.1}); M.py_initialize()
+    M.create_volume_rule("linear", {"growth_rate": 0.1})
+    er = case.get("end_rule")
+    if er:
+        from bioscrape.lineage import LineageVolumeSplitter
+        if er[0] in ("time", "deltaV"): M.create_division_rule(er[0], {"threshold": er[1]}, LineageVolumeSplitter(M))
+        else: M.create_death_rule("species", {"specie": er[1], "threshold": er[2], "comp": ">"})
+    M.py_initialize()
     py_seed_random(case["seed"])
     res = LineageSSASimulator().py_SimulateSingleCell(np.array(case["times"]), Model=M)
     return {"rows": [[float(v) for v in row] for row in np.asarray(res.py_get_result())], "species": M.get_species_list(), "float": True,
@@ -120,7 +134,13 @@ def oracle(case, r):
     if not r or "rows" not in r: return "implementation failed: %s" % json.dumps(r)[:300]
     names = r["species"]
     rows = [[(v if r.get("float") else float.fromhex(v)) for v in row] for row in r["rows"]]
-    if len(rows) != len(case["times"]): return "rows: %d rows for %d time points (%s)" % (len(rows), len(case["times"]), case["mode"])
+    er = case.get("end_rule")
+    if er:
+        if not (1 <= len(rows) <= len(case["times"])): return "rows: %d rows for %d time points (%s, ended by a rule)" % (len(rows), len(case["times"]), case["mode"])
+    elif len(rows) != len(case["times"]): return "rows: %d rows for %d time points (%s)" % (len(rows), len(case["times"]), case["mode"])
+    # a death rule can end the cell between two steps of the dt clock: the last row then carries the state of that moment under the nearest grid
+    # label, and "once per step" says nothing about it; division by time / added volume happens at a step of the clock
+    last_counts = not (er and er[0] == "death" and len(rows) < len(case["times"]))
     col = lambda k, s: rows[k][names.index(s)]
     tol = 1e-6 if case["mode"] == "det" else 1e-12
     for e in case["expect"]:
@@ -131,14 +151,14 @@ def oracle(case, r):
                 if abs(col(k, e["dest"]) - want) > tol * max(1.0, abs(want)):
                     return "repeated assignment (%s): row %d has %s = %r but %s = %r" % (case["mode"], k, e["dest"], col(k, e["dest"]), e["formula"] % tuple(e["args"]), want)
         elif e["kind"] == "counter":
-            for k in range(2, len(rows)):
+            for k in range(2, len(rows) if last_counts else len(rows) - 1):
                 d = col(k, e["dest"]) - col(k - 1, e["dest"])
                 if abs(d - e["step"]) > 1e-9: return "per-step rule (%s): %s changes by %r between rows %d and %d, expected %r" % (_mode_label(case), e["dest"], d, k - 1, k, e["step"])
         elif e["kind"] == "scheduled":
             for k in range(len(rows)):
                 v = col(k, e["dest"])
                 if k < e["k"] and v != e["before"]: return "scheduled rule (%s): row %d before the scheduled time has %s = %r" % (_mode_label(case), k, e["dest"], v)
-                if k > e["k"] and v != e["after"]: return "scheduled rule (%s): row %d after the scheduled time has %s = %r, expected %r" % (_mode_label(case), k, e["dest"], v, e["after"])
+                if k > e["k"] and v != e["after"] and (last_counts or k < len(rows) - 1): return "scheduled rule (%s): row %d after the scheduled time has %s = %r, expected %r" % (_mode_label(case), k, e["dest"], v, e["after"])
     return None
 
 def nontrivial(case): return len(set(e["kind"] for e in case["expect"])) >= 2
